@@ -1145,7 +1145,9 @@ func (e *Exec) checkFrame(env *CEnv) {
 	for _, hn := range names {
 		final := e.st.heaps[hn]
 		init := e.heap0(hn, e.root.heapSorts[hn])
-		if same(final, init) || frameHeapSkipped(hn) {
+		if same(final, init) || frameHeapSkipped(hn) || len(e.P.guardsOfHeap(hn)) > 0 {
+			// state guarded by a declared lock is shared: its changes are governed by the atlock-relative
+			// postconditions and the lock invariant, not by the function's own frame
 			continue
 		}
 		if strings.HasPrefix(hn, "G.") {
@@ -1177,7 +1179,7 @@ func (e *Exec) assumeLoopFrame(lp *Loop, heaps []string) {
 	_, trustedFrame := e.con.Raw["trusted_frame"]
 	lp.frameHeaps = nil
 	for _, hn := range heaps {
-		if frameHeapSkipped(hn) || strings.HasPrefix(hn, "G.") {
+		if frameHeapSkipped(hn) || strings.HasPrefix(hn, "G.") || len(e.P.guardsOfHeap(hn)) > 0 {
 			continue
 		}
 		cur, ok := e.st.heaps[hn]
